@@ -5,7 +5,7 @@ use crate::cmd_table::graph_of;
 use crate::scalars::Inst;
 use crate::*;
 use momtrop::log::DummyLogger;
-use momtrop::{SampleGenerator, TropicalSamplingSettings};
+use momtrop::SampleGenerator;
 use rand::{Error, RngCore};
 use std::sync::{Arc, Barrier};
 
